@@ -15,7 +15,7 @@ THEOREMS = ["ZI.Adapt.C14_order", "ZI.Adapt.C14_conform_wins", "ZI.Adapt.C14_rai
 CONFS = ["a", "E", "A11", "n", "v21", "r12", "Q13"]
 HOOKS = ["n", "v3%d", "r4%d", "N", "Q5%d"]
 ALTS = ["-", "77", "0"]
-CUSTOMS = ["-", "n", "v55", "r56", "Q57"]
+CUSTOMS = ["-", "n", "v55", "r56", "Q57", "In", "Iv58"]
 
 
 def gen_lines(rnd, tier):
@@ -57,7 +57,8 @@ def to_model(line):
         return "r" + t[1:] if t[0] == "Q" else t
     hs = ",".join(tok(t) for t in f[3].split(","))
     cf = "a" if f[1] == "E" else ("r" + f[1][1:] if f[1][0] == "Q" else f[1])
-    return "call %s %s %s %s %s" % (cf, f[2], hs, f[4], "r" + f[5][1:] if f[5][0] == "Q" else f[5])
+    cu = f[5][1:] if f[5][0] == "I" else f[5]
+    return "call %s %s %s %s %s" % (cf, f[2], hs, f[4], "r" + cu[1:] if cu[0] == "Q" else cu)
 
 
 def spec(line):
@@ -73,6 +74,8 @@ def spec(line):
             return "val " + cf[1:], log
         if cf[0] in "rQ":
             return "exc " + cf[1:], log
+    if cu[0] == "I":
+        cu = cu[1:]
     if cu != "-":
         log.append("x")
         if cu.startswith("v"):
